@@ -716,7 +716,11 @@ class MacroProgram(ElementProgram):
         if self._interpolation[-1] and '${' in node:
             char_escape = ('&', '<', '>') if self.escape else ()
             expression = nodes.Substitution(node, char_escape)
-            return nodes.Interpolation(expression, True, translation)
+            # In text mode (no escaping), "&...;" is not an entity
+            return nodes.Interpolation(
+                expression, True, translation,
+                decode_htmlentities=bool(self.escape),
+            )
 
         node = node.replace('$$', '$')
 
